@@ -955,6 +955,8 @@ impl<'a> RepositoryUpdate<'a> {
         //     temp file and replace it with something new and we will now
         //     copy that to the final location.
 
+        #[cfg(routinator_verif)]
+        crate::verif::kill_point("rrdp-snapshot-before-remove");
         if let Err(err) = fs::remove_file(self.path.as_ref()) {
             if !matches!(err.kind(), io::ErrorKind::NotFound) {
                 error!(
@@ -966,6 +968,8 @@ impl<'a> RepositoryUpdate<'a> {
             }
         }
         drop(archive);
+        #[cfg(routinator_verif)]
+        crate::verif::kill_point("rrdp-snapshot-before-rename");
         if let Err(err) = fs::rename(path.as_ref(), self.path.as_ref()) {
             error!(
                 "Fatal: Failed to move new RRDP repository file {} to {}: {}",
@@ -974,6 +978,8 @@ impl<'a> RepositoryUpdate<'a> {
             return Err(RunFailed::fatal())
         }
 
+        #[cfg(routinator_verif)]
+        crate::verif::kill_point("rrdp-snapshot-after-rename");
         self.log.debug(format_args!("snapshot update completed."));
         Ok(true)
     }
@@ -1029,6 +1035,8 @@ impl<'a> RepositoryUpdate<'a> {
             }
         }
 
+        #[cfg(routinator_verif)]
+        crate::verif::kill_point("rrdp-delta-before-state");
         // We are up-to-date now, so we can replace the state file with one
         // reflecting the notification we’ve got originally. This will update
         // the etag and last-modified data.
@@ -1043,6 +1051,8 @@ impl<'a> RepositoryUpdate<'a> {
             }
         }
 
+        #[cfg(routinator_verif)]
+        crate::verif::kill_point("rrdp-delta-after-state");
         self.log.debug(format_args!("Delta update completed."));
         Ok(None)
     }
